@@ -585,7 +585,7 @@ func oracle(c Case, o obs) []failure {
 // ---------------------------------------------------------------------------------------------
 // Coq printing
 
-func coqStr(s string) string {
+func coqLit(s string) string {
 	var b strings.Builder
 	b.WriteByte('"')
 	for i := 0; i < len(s); i++ {
@@ -601,6 +601,36 @@ func coqStr(s string) string {
 	}
 	b.WriteByte('"')
 	return b.String()
+}
+
+// coqStr prints a Go string as a Coq string expression; runs of >= 24 equal bytes are printed run-length encoded
+// (srep n "x", see Model/Labels.v) because the elaboration of long literals dominates the cost of a check run.
+func coqStr(s string) string {
+	const minRun = 24
+	var parts []string
+	start := 0
+	for i := 0; i < len(s); {
+		j := i
+		for j < len(s) && s[j] == s[i] {
+			j++
+		}
+		if j-i >= minRun && s[i] != '"' && s[i] >= 0x20 && s[i] <= 0x7e {
+			if i > start {
+				parts = append(parts, coqLit(s[start:i]))
+			}
+			parts = append(parts, fmt.Sprintf("(srep %d %s)", j-i, coqLit(s[i:i+1])))
+			start = j
+		}
+		i = j
+	}
+	if start < len(s) || len(parts) == 0 {
+		parts = append(parts, coqLit(s[start:]))
+	}
+	out := parts[len(parts)-1]
+	for k := len(parts) - 2; k >= 0; k-- {
+		out = "(sapp " + parts[k] + " " + out + ")"
+	}
+	return out
 }
 
 func coqStrs(xs []string) string {
@@ -1134,6 +1164,85 @@ func plainProbes(n int) []Probe {
 	return ps
 }
 
+// boundaryCorpus: deterministic sweep, emitted on every run, of manifests whose size-limited labels land exactly on the
+// containerd limit. For every size-limited label kind (urls; urls.<i> with one- and two-digit i; the stargz.layers /
+// cri.image-layers digest lists) the joined value is made to hit len(key)+len(value+",") = 4094..4098, both with one long
+// item and with many short items followed by one more (so that truncation at an item boundary lands on those lengths),
+// for the target layer and for neighbours, with the target's digest repeated further down its own list.
+// Strings are built from long single-character runs so that they print run-length encoded.
+func boundaryCorpus() []Case {
+	lg := ocispec.MediaTypeImageLayerGzip
+	fg := images.MediaTypeDockerSchema2LayerForeignGzip
+	dg := func(i int) string { return fmt.Sprintf("sha256:%02x", i) + strings.Repeat("a", 62) }
+	oneLong := func(n int) []string {
+		const pre = "https://b.example.com/"
+		return []string{pre + strings.Repeat("x", n-len(pre))}
+	}
+	many := func(n int) []string {
+		// 20 items joined to exactly n bytes, then one more item that can never fit
+		var us []string
+		total := 0
+		for i := 0; i < 20; i++ {
+			pre := fmt.Sprintf("https://b.example.com/%02d/", i)
+			l := 199
+			if i == 19 {
+				l = n - total
+			}
+			us = append(us, pre+strings.Repeat("q", l-len(pre)))
+			total += l + 1
+		}
+		return append(us, "https://extra.example.com/never-fits")
+	}
+	var cs []Case
+	for _, fl := range []string{"default", "extra"} {
+		// URL lists: key lengths are 34 (urls), 36 (urls.<d>), 37 (urls.<dd>); value+"," must fit in 4096-key, so the joined
+		// length n = 4056..4063 covers key+value+1 = 4094..4098 for all three (and key+value = 4096..4098 for a value that was
+		// limited under a shorter key)
+		for n := 4056; n <= 4063; n++ {
+			for v, mk := range []func(int) []string{oneLong, many} {
+				b := mk(n)
+				c := Case{Flavour: fl, MT: ocispec.MediaTypeImageManifest, Ref: goodRefs[(n+v)%len(goodRefs)], Prefetch: int64(n), MDigest: dg(200),
+					Children: []Child{{MT: mtConfig, Digest: dg(0)}}}
+				for i := 1; i <= 14; i++ {
+					ch := Child{MT: lg, Digest: dg(i), URLs: []string{fmt.Sprintf("https://s.example.com/%d", i)}}
+					switch i {
+					case 1, 4, 13: // target of child 1; neighbour under urls.3 and urls.12
+						ch.MT, ch.URLs = fg, b
+					case 8: // the first layer again: the target appears in its own neighbour list (urls.7)
+						ch.MT, ch.Digest, ch.URLs = fg, dg(1), b
+					case 6:
+						ch.URLs = nil
+					}
+					c.Children = append(c.Children, ch)
+				}
+				c.Record = []int{1, 2}
+				c.Probes = []Probe{{Layer: 1, Dflt: 1}, {Layer: 2, Dflt: 2}}
+				cs = append(cs, c)
+			}
+		}
+		// digest lists: 55 well-formed digests (72 bytes each with the comma) and one entry of tuned length so that
+		// key + list hits 4094..4098 (stargz.layers: key 43, trailing comma counted; cri.image-layers: key 39, no trailing
+		// comma); the tuned entry cannot be a well-formed digest (all of those have lengths = 7 mod 8), one more layer follows
+		lo := 91
+		if fl == "extra" {
+			lo = 96
+		}
+		for t := lo; t < lo+5; t++ {
+			c := Case{Flavour: fl, MT: ocispec.MediaTypeImageManifest, Ref: goodRefs[t%len(goodRefs)], Prefetch: int64(t), MDigest: dg(200),
+				Children: []Child{{MT: mtConfig, Digest: dg(0)}}}
+			for i := 1; i <= 55; i++ {
+				c.Children = append(c.Children, Child{MT: lg, Digest: dg(i)})
+			}
+			c.Children = append(c.Children, Child{MT: lg, Digest: "sha256:" + strings.Repeat("b", t-1-7)})
+			c.Children = append(c.Children, Child{MT: lg, Digest: dg(57), URLs: []string{"https://s.example.com/57"}})
+			c.Record = []int{1, 2}
+			c.Probes = []Probe{{Layer: 1, Dflt: 1}, {Layer: 2, Dflt: 2}}
+			cs = append(cs, c)
+		}
+	}
+	return cs
+}
+
 func corpus() []Case {
 	d := func(i int) string {
 		s := sha256.Sum256([]byte{byte(i)})
@@ -1227,9 +1336,31 @@ func main() {
 			if len(ch.URLs) > 1 && len(kURLs)+usum > 4096 {
 				ctx.Count("input.urls-over-limit")
 			}
+			// a prefix of the URL list whose label lands within 2 bytes of the limit under one of the urls keys
+			acc := 0
+			for _, u := range ch.URLs {
+				acc += len(u) + 1
+				for _, kl := range []int{len(kURLs), len(kURLsPrefix) + 1, len(kURLsPrefix) + 2} {
+					if d := kl + acc - 4096; d >= -2 && d <= 2 {
+						ctx.Count("input.urls-at-limit")
+					}
+				}
+			}
 		}
 		if isManifest(c.MT) && len(kLayers)+dsum > 4096 {
 			ctx.Count("input.layers-over-limit")
+		}
+		acc := 0
+		for _, ch := range c.Children {
+			if images.IsLayerType(ch.MT) {
+				acc += len(ch.Digest) + 1
+				if d := len(kLayers) + acc - 4096; d >= -2 && d <= 2 {
+					ctx.Count("input.layers-at-limit")
+				}
+				if d := len(kCriLayers) + acc - 1 - 4096; d >= -2 && d <= 2 {
+					ctx.Count("input.layers-at-limit")
+				}
+			}
 		}
 		if withURLs >= 2 {
 			ctx.Count("input.several-layers-with-urls")
@@ -1318,7 +1449,7 @@ func main() {
 		ctx.Finish()
 		return
 	}
-	cs := corpus()
+	cs := append(corpus(), boundaryCorpus()...)
 	for _, c := range cs {
 		emit(c)
 	}
